@@ -209,6 +209,14 @@ static int check(const char *kind, const u8 *s, size_t n, char **args, int nargs
         code = code_local(mode, s, n);
         spec = mode == 6531 ? spec_local_6531(s, n) : spec_local_bytes(mode, s, n);
         dis = (code == 0) != (spec != 0);
+#ifdef RFC6531_FOLLOW_RFC5322
+        if (mode == 6531) {      /* option build (C17): pure ASCII is judged as mode 5322; ill-formed UTF-8 is never accepted; nothing else is claimed */
+            int ascii = 1; for (size_t i = 0; i < n; i++) if (s[i] >= 0x80) ascii = 0;
+            if (ascii) { spec = spec_local_bytes(5322, s, n); dis = (code == 0) != (spec != 0); }
+            else { int wf = 1; size_t i = 0; while (i < n) { int k = U_WFLEN(s[i], i + 1 < n ? s[i + 1] : -1, i + 2 < n ? s[i + 2] : -1, i + 3 < n ? s[i + 3] : -1); if (!k) { wf = 0; break; } i += (size_t)k; }
+                   spec = wf ? 2 : 0; dis = (!wf && code == 0); }
+        }
+#endif
     } else if (!strcmp(kind, "host")) {
         code = code_z(is_ascii_domain, s, n, 0); spec = spec_host(s, n); dis = (code == 0) != (spec != 0);
     } else if (!strcmp(kind, "ipv4")) {
